@@ -436,6 +436,8 @@ func c05Fixpoint(p *Prog, rp *Report) {
 	}
 	fields = append(fields, "foo (< 1.0)", "foo (> 1.0)", "foo (<1)", "foo (>1)", "foo (== 1)", "foo (!= 1)", "foo(>=1)", "foo [amd64] [i386]", "foo <a> [amd64] (>= 1)", "foo:any:amd64", "foo [amd64 !i386]")
 	// clauses that are present but empty (accepted or not, the answer has to survive rendering)
+	// bytes that are white space to strings.Fields / unicode.IsSpace but not to the parser stay inside their token
+	fields = append(fields, "lib\u00a0foo (>= 1.0)", "foo\vbar", "a\fb | c", "x\u0085y [amd64]", "foo (>= 1\u00a02)", "foo [amd\u00a064]", "foo <a\vb>", "foo:amd\f64", "\u2003foo")
 	// architecture names with an empty component, as qualifier and in a list
 	fields = append(fields, "foo:gnu-linux-", "foo [gnu-linux-]", "foo [gnu-linux- amd64]", "foo [!gnu-linux-]", "foo [x-]", "foo [-]", "foo:-", "foo:x-", "foo:-x", "foo [any-any-]", "foo:gnu--")
 	fields = append(fields, "foo (>= )", "foo (>=)", "foo ( = )", "foo (<< ) [amd64]", "foo ()", "foo ( )", "foo []", "foo [ ]", "foo [!]", "foo < >", "foo <> <a>", "foo (>= 1 )", "foo ( >= 1)", "foo (>= ) | bar (<< )", "${}", "${ }", "foo:any ()")
